@@ -87,6 +87,8 @@ type PathState struct {
 	allocLimit   int
 	allocLimitOn bool
 
+	hashBufs map[*Obj]*[]*Term
+
 	nondet bool // the path uses an over-approximating stub: no sample prediction
 
 	known map[*Term]bool   // atoms asserted on this path
